@@ -193,6 +193,48 @@ def glob_iterations(ctx, srv):
     return done
 
 
+def stale_ttl_iterations(ctx, srv):
+    """Keys whose time to live was discarded (overwritten, PERSISTed, the collection emptied and re-created) or extended,
+    scanned right after the OLD deadline and before the sweeper's next pass: they exist, they stay, a full iteration
+    returns them (an index or cache of deadlines is a hint, not the truth).  Keys whose deadline really passed are absent."""
+    import time
+    rnd = ctx.rnd
+    s = workloads.fresh_session(ctx, srv, 'stalettl')
+    done = 0
+    try:
+        c = s.open()
+        for rounds in range(2 if ctx.quick else 8):
+            s.cmd(c, [b'FLUSHALL'])
+            n = 12
+            for i in range(n):
+                s.cmd(c, [b'SET', b'str:%d' % i, b'v', b'PX', b'70'])
+                s.cmd(c, [b'RPUSH', b'lst:%d' % i, b'a'])
+                s.cmd(c, [b'PEXPIRE', b'lst:%d' % i, b'70'])
+            for i in range(n):
+                k = i % 6
+                if k == 0: s.cmd(c, [b'SET', b'str:%d' % i, b'v2'])
+                elif k == 1: s.cmd(c, [b'PERSIST', b'str:%d' % i])
+                elif k == 2: s.cmd(c, [b'PEXPIRE', b'str:%d' % i, b'600000'])
+                elif k == 3: s.cmd(c, [b'GETSET', b'str:%d' % i, b'v3'])
+                elif k == 4: s.cmd(c, [b'RENAME', b'str:%d' % i, b'moved:%d' % i])
+                # k == 5: left alone, really expires
+                if k < 3:
+                    s.cmd(c, [b'LPOP', b'lst:%d' % i])
+                    s.cmd(c, [b'RPUSH', b'lst:%d' % i, b'again'])
+            s.cmd(c, [b'HSET', b'H', b'f', b'v'])
+            time.sleep(0.085)
+            for count in (None, 1, 3, 100):
+                iterate(s, c, b'SCAN', None, count, rnd, lambda: None, rnd.choice([None, b'str:*', b'*:1*']), rnd.choice([None, None, b'string']))
+                done += 1
+    except ServerDied:
+        pass
+    s.close_all()
+    ctx.validate(s.trace, label='stalettl')
+    if not srv.alive():
+        srv.restart()
+    return done
+
+
 def skip_schedule(ctx, srv):
     """The schedule TLC finds on the pinned design: delete an element that sorts before the cursor."""
     s = workloads.fresh_session(ctx, srv, 'skip')
@@ -241,6 +283,7 @@ def run(ctx):
     for i in range(4 if ctx.quick else 30):
         n += run_iterations(ctx, srv, 12 if ctx.quick else 40, 'scan%d' % i)
     n += sparse_iterations(ctx, srv, [60] if ctx.quick else [60, 150, 400], [1, 3] if ctx.quick else [1, 2, 3, 10, 25])
+    n += stale_ttl_iterations(ctx, srv)
     ng = glob_iterations(ctx, srv)
     ctx.extra_cov['glob_iterations'] = ng
     n += ng
